@@ -90,6 +90,15 @@ def run(ctx):
         "JSON representability of labels / metadata and the tokenisation of .hgr lines are not decided",
         "the HIF reader is checked for call conformance only (see the known finding on directed HIF documents)",
     ]
+    # ---- the writer records `is_weighted()` next to the header's own "weighted" entry and the reader believes the header: the two
+    #      agree as long as no container switches its weightedness flag on a call that it then rejects (P-ATOMIC, shared with C01-C04)
+    from .. import rules_container as RC
+    from ._containers import PATH_RULES
+
+    res.rules["P-ATOMIC"] = PATH_RULES.get("P-ATOMIC", "no table / flag is modified before an explicit rejection of the call")
+    for cls_ in ("Hypergraph", "DirectedHypergraph", "TemporalHypergraph", "MultiplexHypergraph"):
+        with res.guard(f"RC.check_atomic({cls_}, add_edge / add_edges)"):
+            RC.check_atomic(ctx, res, cls_, ("add_edge", "add_edges"))
     with res.guard("general lint pack over the property's files"):
         from ..lints import check_pack
 
